@@ -382,6 +382,25 @@ pub fn run(ctx: &Ctx) {
         "setcase",
     );
 
+    // (1a'') symbols that were defined with another value before the rules were added and redefined afterwards: a rule's
+    // outcome is its expression evaluated with the symbols of the built ruleset
+    let redefined = super::c12::redefined_symbol_cases();
+    ctx.enumerate(
+        "symbols-redefined-after-the-rules",
+        redefined.len() as u64,
+        true,
+        |i, acc| {
+            let (earlier, case) = &redefined[i as usize];
+            acc.cell(&format!("redefined-symbols:way{}", earlier[0].0), true);
+            if i % 61 == 0 {
+                acc.sample("redefined-symbols", || format!("earlier s = {}, then {}", show_value(&earlier[0].2), case.render()).chars().take(300).collect());
+            }
+            super::c12::check_redefined(earlier, case).map_err(|i| Issue::new(i.sig.replace("history:", "ruleset:"), i.msg))
+        },
+        |i| json!({"redefined_symbols": i}),
+        "redefined-symbols",
+    );
+
     // (1b) large rulesets: the same for 31 ... 1000 rules
     let large: Vec<SetCase> = [31usize, 32, 33, 64, 65, 128, 129, 257, 1000].iter().flat_map(|&n| [1usize, 7, 11].into_iter().map(move |s| large_case(n, s))).collect();
     ctx.enumerate(
@@ -448,6 +467,9 @@ pub fn run(ctx: &Ctx) {
 }
 
 pub fn replay(j: &serde_json::Value) -> Option<Verdict> {
+    if let Some(i) = j.get("redefined_symbols").and_then(|i| i.as_u64()) {
+        return super::c12::redefined_symbol_cases().get(i as usize).map(|(e, c)| super::c12::check_redefined(e, c).map_err(|i| Issue::new(i.sig.replace("history:", "ruleset:"), i.msg)));
+    }
     if let Some(b) = j.get("ser_bytes").and_then(|b| b.as_array()) {
         let bytes: Vec<u8> = b.iter().filter_map(|x| x.as_u64().map(|x| x as u8)).collect();
         let mut d = Dec::new(&bytes);
